@@ -263,7 +263,7 @@ def i_CPC(i, fmap):
     b = fmap(src)
     _c = fmap[cf]
     __nopc(i_CP)(i, fmap)
-    a = fmap(a - b)
+    a = a - b
     b = tst(_c, cst(1, a.size), cst(0, a.size))
     x = a - b
     __setflags__A(i, fmap, a, b, x, neg=True)
